@@ -13,7 +13,7 @@ Open Scope R_scope.
 (** coefficients of the source, whole closed interval 0..tcritical: tsat(sat(t)) = t EXACTLY over R
     whenever tsat's own range test accepts sat's value *)
 Theorem tsat_sat_inverse_guarded : forall t p : R,
-  runsR sat_traced [t] n4 (RRet [p]) -> Q2R p_611_213_Q <= p <= Q2R pcritical_Q ->
+  runsR sat_traced [t] n4 (RRet [p]) -> Q2R p_611_213_Q <= p <= Q2R tsat_upper_Q ->
   runsR tsat_traced [p] n4 (RRet [t]).
 Proof. exact tsat_sat_inverse_guarded_proof. Qed.
 Print Assumptions tsat_sat_inverse_guarded.
